@@ -546,10 +546,8 @@ theorem knotB (S : TSet) : ∀ fuel,
             · rename_i items hitems
               have him := alookup_some_mem hitems
               dsimp only
-              split
-              · hprim
-              · refine hoare_bind (hoare_fetchNsVars S n r.tu t cid ht _ _) (fun _ _ => ?_)
-                exact ihItems _ _ ht (fun i hi => mem_allItems_inline htm him hi)
+              refine hoare_bind (hoare_fetchNsVars S n r.tu t cid ht _ _) (fun _ _ => ?_)
+              exact ihItems _ _ ht (fun i hi => mem_allItems_inline htm him hi)
       · hprim
     · intro cid kind uri calling args hpre
       unfold includeFile
